@@ -89,7 +89,7 @@ Definition f_saltpack_encryptStream_init : gfunc := mkFunc "saltpack.encryptStre
       SIf [] (EBin OEq "bool" (EVar "sender") ENil)
       [SAssign ["sender"] [(EVar "ephemeralKey")]]
       [];
-      SAssign ["eh"] [(ELit "EncryptionHeader" [("FormatName", (EStr "saltpack")); ("Version", (EVar "version")); ("Type", (EInt (0))); ("Ephemeral", (ECall "BoxPublicKey.ToKID" [(ECall "BoxSecretKey.GetPublicKey" [(EVar "ephemeralKey")])])); ("Receivers", (ECall "make" [(EUnsup "*ast.ArrayType"); (EInt (0)); (ELen (EVar "receivers"))]))])];
+      SAssign ["eh"] [(ELit "EncryptionHeader" [("FormatName", (EStr "saltpack")); ("Version", (EVar "version")); ("Type", (EInt (0))); ("Ephemeral", (ECall "BoxPublicKey.ToKID" [(ECall "BoxSecretKey.GetPublicKey" [(EVar "ephemeralKey")])])); ("Receivers", (ECall "makemap" [])); ("SenderSecretbox", ENil)])];
       SAssign ["payloadKey"; "err"] [(ECall "encryptRNG.createSymmetricKey" [(EVar "rng")])];
       SIf [] (EBin ONe "bool" (EVar "err") ENil)
       [SReturn [(EVar "err")]]
@@ -101,7 +101,7 @@ Definition f_saltpack_encryptStream_init : gfunc := mkFunc "saltpack.encryptStre
       [SAssign ["sharedKey"] [(ECall "BoxSecretKey.Precompute" [(EVar "ephemeralKey"); (EVar "receiver")])];
       SAssign ["nonce"] [(ECall "nonceForPayloadKeyBox" [(EVar "version"); (EConv "uint64" (EVar "i"))])];
       SAssign ["payloadKeyBox"] [(ECall "BoxPrecomputedSharedKey.Box" [(EVar "sharedKey"); (EVar "nonce"); (ESlice (ESel (EVar "es") "payloadKey") None None)])];
-      SAssign ["keys"] [(ELit "receiverKeys" [("PayloadKeyBox", (EVar "payloadKeyBox"))])];
+      SAssign ["keys"] [(ELit "receiverKeys" [("PayloadKeyBox", (EVar "payloadKeyBox")); ("ReceiverKID", ENil)])];
       SIf [] (ENot (ECall "BoxPublicKey.HideIdentity" [(EVar "receiver")]))
       [SAssignL [(LField (LVar "keys") "ReceiverKID")] [(ECall "BoxPublicKey.ToKID" [(EVar "receiver")])]]
       [];
@@ -130,7 +130,8 @@ Definition f_saltpack_encryptStream_Close : gfunc := mkFunc "saltpack.encryptStr
       SIf [] (EBin OGt "bool" (ECall "Buffer.Len" [(ESel (EVar "es") "buffer")]) (EInt (0)))
       [SPanic (EStr "panic")]
       [];
-      SReturn [(ECall "encryptStream.encryptBlock" [(EVar "es"); (EBool true)])]]);
+      SAssign ["r'0"] [(ECall "encryptStream.encryptBlock" [(EVar "es"); (EBool true)])];
+      SReturn [(EVar "r'0")]]);
        ([(ECall "Version2" [])], [SAssign ["err"] [(ECall "encryptStream.encryptBlock" [(EVar "es"); (EBool true)])];
       SIf [] (EBin ONe "bool" (EVar "err") ENil)
       [SReturn [(EVar "err")]]
